@@ -76,6 +76,11 @@ def cases(draw, tier, unexportable=False):
         base = c08.normalise(draw(gen.programs(prof)))
     finally:
         gen.INTERP_KWARGS = False
+    if draw(st.integers(0, 5)) == 0 and not unexportable:
+        # a variable that is declared and never used: the sequence stays an ordinary one
+        pos = draw(st.integers(0, len(base["ops"])))
+        base = dict(base, ops=base["ops"][:pos] + [dict(op="declare_var", name="unused", size=draw(
+            st.sampled_from([None, 2])), dtype=draw(st.sampled_from(["float", "int"])))] + base["ops"][pos:])
     out = dict(base=base, codec=draw(st.sampled_from(["abstract", "abstract", "legacy"])))
     if unexportable and _has_ikw(base):
         out["unexportable"] = True
@@ -258,6 +263,20 @@ def _check_param(case, ctx, codec, dec, qmap):
                      f"assignment {j}: original -> {res[0]!r}; decoded -> {res[1]!r}")
         elif not isinstance(res[0], Exception):
             seq_equal(ctx, CP, f"{codec}:built_from_decoded", res[0], res[1])
+            if j == 0 and not unexp and not case.get("unexportable") and qmap is None:
+                # the built sequence is a sequence like any other: it exports and comes back the same
+                # (its record holds what the variables became: numpy integers, 0-d arrays, ...).
+                # Concrete registers only: a sequence built from a mappable register with fewer
+                # traps than qubits keeps calls and references that name the unmapped qubits.
+                from pulser import Sequence as _Seq
+
+                bseq = res[0]
+                enc_b = (lambda: bseq.to_abstract_repr()) if codec == "abstract" else (lambda: bseq._serialize())
+                bdoc = ctx.must(enc_b, CP, f"{codec}: encode the built sequence")
+                if codec == "abstract":
+                    own_schema(ctx, CP, bdoc)
+                bback = ctx.must(lambda: dec(bdoc), CP, f"{codec}: decode the built sequence")
+                seq_equal(ctx, CP, f"{codec}:built_then_exported", bseq, bback)
 
 
 def _first_json_diff(a, b, path=""):
